@@ -1,1 +1,30 @@
-fn main() {}
+mod subjects;
+use std::time::Instant;
+use subjects::*;
+use midnight_zk_stdlib::MidnightVK;
+fn main() {
+    vcore::pin_global_rayon(1);
+    let t = Instant::now();
+    let b = build_bundle(0, true).unwrap();
+    println!("bundle built in {:?}", t.elapsed());
+    for (k, v) in &b { println!("{k}: {} bytes", v.len()); }
+    for tag in ["A", "B"] {
+        for f in [Fmt::P, Fmt::R] {
+            let bytes = &b[&format!("mvk:{tag}:{}", f.tag())];
+            let t = Instant::now();
+            for _ in 0..10 { MidnightVK::read(&mut &bytes[..], f.sf()).unwrap(); }
+            println!("read mvk {tag} {}: {:?}/10", f.name(), t.elapsed());
+            let l = mvk_layout(bytes, f).unwrap();
+            println!("  layout fields {}", l.len());
+        }
+        let l = proof_layout(&b[&format!("proof:{tag}")]).unwrap();
+        println!("proof {tag}: {} elements, {} points", l.len(), l.iter().filter(|f| f.kind == Kind::G1c).count());
+    }
+    for w in 0..2 {
+        let (m, _) = zkir_manual(&zkir_program(w));
+        println!("zkir {w}: manual==lib {} len {}", m == b[&format!("zkir:bin:{w}")], m.len());
+        let s: &'static str = Box::leak(zkir_json(w).into_boxed_str());
+        let r = midnight_zkir::ZkirRelation::read(s).unwrap();
+        println!("  json==bin {}", zkir_encode(&r) == b[&format!("zkir:bin:{w}")]);
+    }
+}
